@@ -1,5 +1,4 @@
 import Bmc.Proofs.C01
-#print axioms Bmc.Proofs.C01.yet.
 #print axioms Bmc.Proofs.C01.keys_are_spec
 #print axioms Bmc.Proofs.C01.session_ids
 #print axioms Bmc.Proofs.C01.unsupported_refused
